@@ -104,6 +104,11 @@ func c06(r *Report) {
 			return !cc.IsInvoke() && cc.StaticCallee() == nil && n != nil && n.Obj().Name() == "Verifier"
 		}})})
 
+	// key lookup is always "as of the referenced transactions": never the latest document
+	c06KeyAsOfPrevs(r)
+	kr := p.Func(dag, "SourceTXKeyResolver", "ResolvePublicKey")
+	r.Gate(Gate{ID: "C06.keys.found-in-a-referenced-version", Fn: kr, Effect: ReturnsNonNil(0), Check: ErrCheck(Fn(dag, "", "resolvePublicKey"))})
+
 	// --- C06.add
 	add := p.Func(dag, "state", "Add")
 	kvWrite := Fn(stoabsPkg, "KVStore", "Write")
